@@ -54,8 +54,14 @@ def structure(symbols) -> dict:
     return {'leaves': leaves, 'count': len(symbols)}
 
 
-def evaluate(symbols) -> dict[int, typing.Any]:
-    """Execute every instruction exactly once in dependency order; returns id(instruction) -> result."""
+_NOENTRY = object()
+
+
+def evaluate(symbols, entry=_NOENTRY) -> dict[int, typing.Any]:
+    """Execute every instruction exactly once in dependency order; returns id(instruction) -> result.
+
+    With ``entry`` given, argument-less actor instructions (the source) are called with that single argument - the calling
+    convention of the serving runner, which feeds the request entry to the source."""
     symbols = list(symbols)
     table = {id(s.instruction): s for s in symbols}
     results: dict[int, typing.Any] = {}
@@ -76,7 +82,14 @@ def evaluate(symbols) -> dict[int, typing.Any]:
                 for a in pending:
                     order.append((table[id(a)], 0))
                 continue
-            results[k] = sym.instruction(*[results[id(a)] for a in sym.arguments])
+            args = [results[id(a)] for a in sym.arguments]
+            if (
+                entry is not _NOENTRY
+                and hasattr(sym.instruction, 'builder')
+                and all(isinstance(a, system.Loader) for a in sym.arguments)
+            ):
+                args = args + [entry]  # the source: nothing but (optional) state presets in front
+            results[k] = sym.instruction(*args)
         return results[key]
 
     for sym in symbols:
